@@ -546,6 +546,11 @@ class Interp:
                     return ("input", c, v.name)
                 return ("method", c, v.name)
             return (None, None, None)
+        if isinstance(f, ast.Attribute) and f.attr in ("callback", "errback") and isinstance(f.value, ast.Name) \
+                and f.value.id != "self" and not isinstance(ctx.locs.get(f.value.id), OBJV) and ctx.cls.name in CLIENT:
+            # a Deferred fired in place by a client machine (the input helper's when_wordlist_is_available()): the application's
+            # callbacks run here, inside the transition - a re-entry point like the delegate's methods
+            return ("app", None, "helper_deferred_fired")
         if isinstance(f, ast.Attribute) and isinstance(f.value, ast.Name) and isinstance(ctx.locs.get(f.value.id), OBJV):
             c = self.ALL[ctx.locs[f.value.id].cls]
             if f.attr in c.inputs:
@@ -594,7 +599,7 @@ class Interp:
     def app_event(self, name, st):
         st = st.cp()
         self.app_events_seen.add(name)
-        if st.get(('e', 'app_closed')) == 'T' and name != "got_welcome":
+        if st.get(("e", "app_closed")) == "T" and name not in ("got_welcome", "helper_deferred_fired"):
             self.add_viol("event-after-closed", name)
         if name == "closed":
             if st.get(('e', 'app_closed')) == 'T':
